@@ -500,3 +500,67 @@ Proof.
     - eapply anch_mono; eauto. apply G6. }
   split; [simpl; eapply vec_transfer; eauto|]. split; auto. simpl. lia.
 Qed.
+
+(* ---------------------------------------------------------------- add_rrset *)
+
+Fixpoint rds_names (cts : list ctype) (rds : list bytes) : list wname :=
+  match rds with [] => [] | rd :: r => rd_names cts rd ++ rds_names cts r end.
+Definition rds_size (owner : wname) (rds : list bytes) : nat :=
+  fold_right (fun rd acc => length (nm_wire owner) + 10 + length rd + acc) 0 rds.
+
+Lemma lastn_app a c d : lastn (a ++ c) d = lastn c (lastn a d).
+Proof. unfold lastn. apply fold_left_app. Qed.
+
+Lemma owner_hint_ok w h L gq gr owner : NInv w h L -> anch3 w L gq (Some owner) gr ->
+  hint_contract HOwner owner w.
+Proof.
+  intros Hi [_ [A _]] pr E. destruct (A pr E) as [m [Em [St Hl]]]. inversion Em; subst m.
+  eapply stands_hinted; eauto. apply name_eq_refl.
+Qed.
+
+Definition rrset_post (owner : wname) (cts : list ctype) (rds : list bytes) (names : list wname)
+           (gq go gr : option wname) (v : option hvec) (k : nat) (w : writer) (L : nat -> Prop)
+           (r : M (option hvec * nat)) : Prop :=
+  match r with
+  | Ok ((v', k'), w') =>
+    exists L', grew w w' L L' /\ NInv w' (length (w_buf w')) L' /\
+      anch3 w' L' gq (match rds with [] => go | _ => Some owner end) (lastn (rds_names cts rds) gr) /\
+      vec_ok (w_buf w') (w_cursor w') L' v' (names ++ rds_names cts rds) /\ vsome v' = vsome v /\
+      k' = k + length rds /\ w_cursor w' <= w_cursor w + rds_size owner rds /\ w_cursor w <= w_cursor w'
+  | Err (e, w') =>
+    (e = Truncation /\ w_avail w < w_cursor w + rds_size owner rds) \/ (e = InvalidRdata /\ cts <> [])
+  | Panic => False
+  end.
+
+Lemma rrset_L owner ty cl ttl gq : forall rds h v k w L names go gr,
+  NInv w (length (w_buf w)) L -> anch3 w L gq go gr -> vec_ok (w_buf w) (w_cursor w) L v names ->
+  wf_name owner -> Forall wf_bytes rds -> hint_contract h owner w -> hint_in h w L ->
+  rrset_post owner (component_types cl ty) rds names gq go gr v k w L
+             (add_rrset_loop h owner ty cl ttl rds v k w).
+Proof.
+  induction rds as [|rd rest IH]; intros h v k w L names go gr Hi A V Hwf Hrds Hh HhL.
+  - simpl. exists L. rewrite app_nil_r. split; [apply grew_refl|]. split; [exact Hi|].
+    split; [exact A|]. split; [exact V|]. split; [reflexivity|]. split; [lia|]. split; lia.
+  - inversion Hrds as [|? ? Hrd Hrest]; subst. cbn [add_rrset_loop].
+    pose proof (add_rr_L h owner ty cl ttl rd v w L names gq go gr Hi A V Hwf Hrd Hh HhL) as P.
+    assert (Hpre : pre (w_cursor w) w) by (split; [lia|apply Hi]).
+    pose proof (frame_add_rr (w_cursor w) h owner ty cl ttl rd v w Hpre) as F.
+    destruct (add_rr h owner ty cl ttl rd v w) as [[v1 w1]|[e w1]|]; simpl in P, F; cbn [bind]; auto.
+    2:{ simpl. destruct P as [[-> Hs]|[-> Hs]]; [left|right; auto]. split; auto. lia. }
+    destruct P as [L1 [G1 [Hi1 [A1 [V1 [Vs1 Hc1]]]]]].
+    specialize (IH HOwner v1 (S k) w1 L1 (names ++ rd_names (component_types cl ty) rd) (Some owner)
+                   (lastn (rd_names (component_types cl ty) rd) gr) Hi1 A1 V1 Hwf Hrest
+                   (owner_hint_ok _ _ _ _ _ _ Hi1 A1) I).
+    unfold rrset_post in IH |- *.
+    destruct (add_rrset_loop HOwner owner ty cl ttl rest v1 (S k) w1) as [[[v2 k2] w2]|[e w2]|]; auto.
+    + destruct IH as [L2 [G2 [Hi2 [A2 [V2 [Vs2 [Hk [Hc2 Hm2]]]]]]]].
+      pose proof (x_cur _ _ _ F) as Hm1.
+      exists L2. split.
+      { apply (grew_trans w w1 w2 L L1 L2); auto. }
+      split; [exact Hi2|]. split.
+      { cbn [rds_names]. rewrite lastn_app. destruct rest; exact A2. }
+      split; [cbn [rds_names]; rewrite app_assoc; exact V2|]. split; [congruence|].
+      split; [simpl; lia|]. split; [simpl; lia|lia].
+    + destruct IH as [[-> Hs]|[-> Hs]]; [left|right; auto]. split; auto.
+      rewrite (x_av _ _ _ F) in Hs. simpl. lia.
+Qed.
